@@ -285,6 +285,10 @@ def r4_rejoin_or_defunct(ctx, f, rep):
             gos = [c for c in p.calls() if c['res'] == 'Foca::gossip']
             rep.check(not gos, 'C10-R4', hb.nname, 'no gossip under the dead identity from this arm', construct='no-gossip-when-dead')
     rep.floor('C10-R4', n, 4, 'Down / at-MAX paths')
+    cs0 = sorted({c[0].nname for c in f.callers_of(lambda x: x == 'Foca::handle_self_update')})
+    rep.check(cs0 == ['Foca::apply_many', 'Foca::handle_data'], 'C10-R4', 'Foca::handle_self_update', 'the reaction to news about '
+              'oneself is triggered only by updates (apply_many) and by TurnUndead (handle_data)',
+              construct='handle_self_update-callers', facts={'callers': cs0})
     cs_ = sorted({c[0].nname for c in f.callers_of(lambda x: x == 'Foca::attempt_rejoin')})
     rep.check(cs_ == ['Foca::handle_self_update'], 'C10-R4', 'Foca::attempt_rejoin', 'renewal is attempted only from '
               'handle_self_update (so a failed attempt always ends in become_undead)', construct='attempt_rejoin-callers',
